@@ -298,6 +298,11 @@ func (se *SpecEnv) objValue(o types.Object) (T, bool) {
 		addr := se.c.reg.Global(x.Pkg().Path() + "." + x.Name())
 		term := se.c.loadWith(se.memOf, addr, x.Type())
 		return T{S: term, So: se.c.reg.SortOf(x.Type()), Ty: x.Type()}, true
+	case *types.Func:
+		// a package-level function used as a value (compared with a function-typed field or argument)
+		if fn := se.c.eng.prog.FuncValue(x); fn != nil {
+			return T{S: fmt.Sprintf("(mk_func %d nil)", se.c.reg.FuncID(fn.String())), So: "Func", Ty: x.Type()}, true
+		}
 	}
 	return T{}, false
 }
